@@ -519,7 +519,7 @@ func (w *heightsWorld) scripted(vals *types.ValidatorSet) []string {
 }
 
 // the environment's blocks of the height the node is at: Z0, Z1 (valid, carry a tx), ZX (wrong AppHash), ZC (a LastCommit
-// that is not one: a single signature / at the initial height a non-empty one)
+// that is not one: no signature at all)
 func (w *heightsWorld) prepareHeight() {
 	cs := w.cs
 	h := cs.Height
@@ -552,14 +552,9 @@ func (w *heightsWorld) prepareHeight() {
 	w.register("ZX", h, zx, zx.MakePartSet(types.BlockPartSizeBytes))
 	if h > st.InitialHeight {
 		bad := &types.Commit{Height: commit.Height, Round: commit.Round, BlockID: commit.BlockID, Signatures: make([]types.CommitSig, len(commit.Signatures))}
-		kept := false
-		for i, s := range commit.Signatures {
-			if s.ForBlock() && !kept {
-				bad.Signatures[i] = s
-				kept = true
-			} else {
-				bad.Signatures[i] = types.NewCommitSigAbsent()
-			}
+		// (one signature would do if that validator held +2/3 of the power: none is invalid under every validator set)
+		for i := range commit.Signatures {
+			bad.Signatures[i] = types.NewCommitSigAbsent()
 		}
 		zc, zcp := st.MakeBlock(h, []types.Tx{types.Tx(fmt.Sprintf("zch%d=1", h))}, bad, nil, proposer)
 		w.register("ZC", h, zc, zcp)
@@ -957,7 +952,8 @@ func heightsUpdates(w *heightsWorld, u []heightsAP) []abci.ValidatorUpdate {
 	return out
 }
 
-// would the set refuse the batch?  (the driver only offers what the application may legally answer)
+// would the set refuse the batch?  (the driver only offers what the application may legally answer; that includes removing the
+// node under test: it then follows the chain without signing)
 func (w *heightsWorld) updateOK(u []heightsAP) bool {
 	if len(u) == 0 {
 		return true
@@ -966,9 +962,6 @@ func (w *heightsWorld) updateOK(u []heightsAP) bool {
 	vals := []*types.Validator{}
 	for _, x := range u {
 		if x.A < 1 || x.A > len(w.names) {
-			return false
-		}
-		if x.A == 1 && x.P == 0 {
 			return false
 		}
 		vals = append(vals, types.NewValidator(w.keys[w.names[x.A-1]].PubKey(), x.P))
@@ -1190,7 +1183,7 @@ func (w *heightsWorld) other(kind string) (heightsStep, bool) {
 // ---------------------------------------------------------------- the seeded walker
 
 var heightsMenu = [][]heightsAP{
-	{}, {}, {}, {{2, 3}}, {{4, 0}}, {{5, 2}}, {{3, 0}}, {{4, 3}, {5, 1}}, {{1, 3}}, {{2, 1}}, {{4, 2}}, {{5, 0}}, {{3, 2}}, {{2, 0}},
+	{}, {}, {}, {{2, 3}}, {{4, 0}}, {{5, 2}}, {{3, 0}}, {{4, 3}, {5, 1}}, {{1, 3}}, {{2, 1}}, {{4, 2}}, {{5, 0}}, {{3, 2}}, {{2, 0}}, {{1, 0}}, {{1, 2}},
 }
 
 func (w *heightsWorld) randomUpdate(rng *rand.Rand) []heightsAP {
